@@ -52,6 +52,7 @@ type wireArg struct {
 	Behaviours []wireBehaviour
 	Seed       int64
 	Progress   string
+	Pressure   bool // end with pings under scheduler pressure
 }
 type wireResult struct {
 	Mismatches [][2]string
@@ -809,6 +810,37 @@ func wireChild(a wireArg) (*wireResult, error) {
 		}
 		res.Done++
 	}
+	if a.Pressure && len(res.Mismatches) == 0 {
+		// pings from twenty-eight distinct node ids while the scheduler is kept busy (helper goroutines of the node run late), then:
+		// a new remote is still bonded with (F22)
+		stop := make(chan struct{})
+		for i := 0; i < 64; i++ {
+			go func() {
+				x := 0
+				for {
+					select {
+					case <-stop:
+						return
+					default:
+						x++
+					}
+				}
+			}()
+		}
+		old := runtime.GOMAXPROCS(2)
+		for i := 0; i < 28; i++ {
+			s.datagram(rand.New(rand.NewSource(a.Seed*1000+int64(i))), "ping-valid")
+		}
+		close(stop)
+		runtime.GOMAXPROCS(old)
+		time.Sleep(2 * time.Second)
+		if err := s.control(r); err != nil {
+			res.Mismatches = append(res.Mismatches, [2]string{"others-not-served-after-pings-under-load",
+				fmt.Sprintf("after pings from twenty-eight distinct node ids under scheduler pressure a well-behaved remote is not served any more: %v", err)})
+		} else {
+			res.Done++
+		}
+	}
 	return res, nil
 }
 
@@ -852,6 +884,7 @@ func wireCheck(run *core.Run) {
 	for i := range args {
 		args[i].Seed = run.Seed*10 + int64(i)
 		args[i].Progress = fmt.Sprintf("%s/progress-%d", dir, i)
+		args[i].Pressure = i == 0
 		wg.Add(1)
 		go func(i int) {
 			defer wg.Done()
